@@ -330,3 +330,21 @@ def canon_nan(d, t, mv):
     except Exception:
         pass
     return mv
+
+
+def canon_smin(d, t, mv):
+    """class of the recorded finding: at a signed field, the minimum -2^(N-1) and the value +2^(N-1)
+    (which the unfixed decoder returns for it) are identified"""
+    k = t[0]
+    try:
+        if k == "i" and isinstance(mv, int) and not isinstance(mv, bool):
+            return "smin" if abs(mv) == 1 << (t[1] - 1) and mv in (-(1 << (t[1] - 1)), 1 << (t[1] - 1)) else mv
+        if k == "struct" and isinstance(mv, list):
+            return [canon_smin(d, ft, x) for (_, _, ft), x in zip(d.sorted_fields(t[1]), mv)]
+        if k in ("arr", "dyn") and isinstance(mv, list):
+            return [canon_smin(d, t[1], x) for x in mv]
+        if k == "opt" and isinstance(mv, dict) and "some" in mv:
+            return {"some": canon_smin(d, t[1], mv["some"])}
+    except Exception:
+        pass
+    return mv
